@@ -299,6 +299,9 @@ class SafeLearner(Learner):
                     self._method[key] = 2
                     return out
                 except Exception as inner_e:
+                    #a learner can raise the very same exception object both times and an exception that is
+                    #its own cause sends everything that later walks the chain (e.g., our logger) in circles
+                    if inner_e is outer_e: raise
                     raise inner_e from outer_e
 
     def _parse_pred(self, context, actions, pred):
